@@ -1,7 +1,7 @@
 #!/bin/bash
 # tools/seed_sweep.sh "<seeds>" [props...] — quick check of each property under several seeds; prints one line per run
 seeds=${1:-"1 2 3"}; shift
-props=${@:-C01 C02 C03 C04 C05 C06 C07 C08 C09 C10 C11 C13 C14 C15 C16 C17 C18 C19 C20}
+props=${@:-C01 C02 C03 C04 C05 C06 C07 C08 C09 C10 C11 C12 C13 C14 C15 C16 C17 C18 C19 C20}
 cd /verif
 for s in $seeds; do for p in $props; do
   out=$(VERIF_SEED=$s ./check $p quick 2>&1 | grep -v "^WARN" | tail -1)
